@@ -227,7 +227,7 @@ static void prop_gs(Tape &t, Ctx &c) {
 }
 
 // ------------------------------------------------------------------ hierarchies
-struct Hier { std::vector<Csr<double>> A, P, R; std::vector<std::vector<double>> app; };
+struct Hier { std::vector<Csr<double>> A, P, R; std::vector<std::vector<double>> app; std::string exc; };
 
 static Hier build(const Csr<double> &A, const boost::property_tree::ptree &prm_, const std::vector<std::vector<double>> &rhs,
                   const std::vector<double> &ns = std::vector<double>(), int ns_cols = 0) {
@@ -240,13 +240,17 @@ static Hier build(const Csr<double> &A, const boost::property_tree::ptree &prm_,
         prm.put("coarsening.nullspace.rows", static_cast<int>(A.n));
         prm.put("coarsening.nullspace.B", static_cast<void *>(nsc.data()));
     }
-    AMG amg(tup, prm);
-    for (const auto &l : acc::levels(amg)) {
-        if (l.A) h.A.push_back(from_crs(*l.A));
-        if (l.P) h.P.push_back(from_crs(*l.P));
-        if (l.R) h.R.push_back(from_crs(*l.R));
-    }
-    for (auto &f : rhs) { std::vector<double> x(A.n, 0.0); amg.apply(f, x); h.app.push_back(x); }
+    // an exception of the setup (e.g. a singular coarsest matrix with linearly dependent near-null-space vectors) is an outcome
+    // like any other: it has to be the same at every thread count
+    try {
+        AMG amg(tup, prm);
+        for (const auto &l : acc::levels(amg)) {
+            if (l.A) h.A.push_back(from_crs(*l.A));
+            if (l.P) h.P.push_back(from_crs(*l.P));
+            if (l.R) h.R.push_back(from_crs(*l.R));
+        }
+        for (auto &f : rhs) { std::vector<double> x(A.n, 0.0); amg.apply(f, x); h.app.push_back(x); }
+    } catch (const std::exception &e) { h = Hier(); h.exc = std::string("exception: ") + e.what(); }
     return h;
 }
 
@@ -288,6 +292,17 @@ static void prop_hierarchy(Tape &t, Ctx &c) {
     std::vector<Hier> H(NTH);
     for (int qq = 0; qq < NHQ; ++qq) { int q = HQ[qq]; set_threads(TH[q]); H[q] = build(A, prm, rhs, ns, ns_cols); }
     set_threads(c.threads);
+    {   // outcome class first: exceptions
+        bool any_exc = false; for (int qq = 0; qq < NHQ; ++qq) any_exc = any_exc || !H[HQ[qq]].exc.empty();
+        if (any_exc) {
+            c.label("setup-exception");
+            // where the setup is only thread-independent up to rounding (emin) an exactly singular pivot may or may not be hit
+            if (setup_bitwise) for (int qq = 1; qq < NHQ; ++qq)
+                VF_REQUIRE(H[HQ[qq]].exc == H[0].exc, "setup outcome differs between 1 and " << TH[HQ[qq]] << " threads: '" << H[0].exc << "' vs '" << H[HQ[qq]].exc << "'");
+            c.nontrivial = false; c.desc << " -> " << H[0].exc;
+            return;
+        }
+    }
     size_t nl = H[0].A.size();
     c.nontrivial = nl >= 2;
     c.label(nl >= 3 ? "levels>=3" : nl == 2 ? "levels=2" : "levels=1");
@@ -341,6 +356,7 @@ static void prop_hierarchy_cross(Tape &t, Ctx &c) {
     set_threads(16); Hier h16 = build(A, prm, rhs);
     set_threads(17); Hier h17 = build(A, prm, rhs);
     set_threads(c.threads);
+    if (!h16.exc.empty() || !h17.exc.empty()) { c.label("setup-exception"); VF_REQUIRE(h16.exc == h17.exc, "setup outcome differs between 16 and 17 threads: '" << h16.exc << "' vs '" << h17.exc << "'"); c.nontrivial = false; return; }
     c.nontrivial = h16.A.size() >= 2;
     VF_REQUIRE(h16.A.size() == h17.A.size(), "number of levels differs between 16 and 17 threads");
     bool same = true;
@@ -367,6 +383,7 @@ static void prop_solve(Tape &t, Ctx &c) {
     prm.put("solver.type", SOLVER[si]);
     prm.put("solver.tol", 1e-8);
     prm.put("solver.maxiter", 200);
+    if (si == 2) prm.put("solver.s", std::max(1, std::min(4, g.n))); // IDR(s) needs s <= n (s shadow vectors are orthonormalised in R^n)
     std::vector<double> f = gen_vec(t, g.n, 2);
     bool nz = false; for (double v : f) nz = nz || v != 0; if (!nz && g.n) f[0] = 1;
     c.desc << "solve " << SOLVER[si] << " + " << COARSE[ci] << "/spai0 " << g.family << " n=" << g.n;
